@@ -15,10 +15,10 @@ func init() {
 		DesignRef: "DESIGN.md §5 C41",
 		Level: "Decides that both protocol handlers commit or roll back their appender exactly once on every path (v1: rollback iff an error is returned; v2: rollback on 5xx, commit otherwise), that the v2 statistics are returned only after a nil-error commit, that in appendV2 a sample, histogram or exemplar rejected with a 4xx-class error is recorded and skipped without ending its series' loop, " +
 			"that the written counters are incremented only in the arm where the corresponding append returned nil, that any other append error aborts with 500, and that series with invalid or duplicate label names are rejected before anything of them is appended.",
-		Note:     "Trusted: go/packages, go/types, go/cfg; rule tables in checker/c41.go.",
-		Covers:   "writeHandler.write, appendV1Samples, appendV1Histograms, writeV2, appendV2.",
-		NotCover: "decoding of the protobuf messages and the symbol table (value-level), which errors the storage returns.",
-		Run:      runC41,
+		Note:           "Trusted: go/packages, go/types, go/cfg; rule tables in checker/c41.go.",
+		Covers:         "writeHandler.write, appendV1Samples, appendV1Histograms, writeV2, appendV2.",
+		NotCover:       "decoding of the protobuf messages and the symbol table (value-level), which errors the storage returns.",
+		Run:            runC41,
 		MinObligations: 25,
 	})
 }
@@ -31,8 +31,12 @@ func runC41(c *eng.Ctx) {
 	{
 		f := c.Fn(H + ".writeV2")
 		f.CountOnPaths("R1", "app.Commit()/app.Rollback()", []eng.Matcher{commit, rollback}, 1, eng.AnyExit)
-		f.Only("R1", rollback, "is taken for 5xx errors only", func(l eng.Loc) bool { return f.UnderCond(l, "errHTTPCode/5 == 100") || f.UnderCond(l, "errHTTPCode / 5 == 100") })
-		retStats := eng.Return("s, …", func(g *eng.Graph, rs *ast.ReturnStmt) bool { return len(rs.Results) == 3 && eng.ExprString(rs.Results[0]) == "s" })
+		f.Only("R1", rollback, "is taken for 5xx errors only", func(l eng.Loc) bool {
+			return f.UnderCond(l, "errHTTPCode/5 == 100") || f.UnderCond(l, "errHTTPCode / 5 == 100")
+		})
+		retStats := eng.Return("s, …", func(g *eng.Graph, rs *ast.ReturnStmt) bool {
+			return len(rs.Results) == 3 && eng.ExprString(rs.Results[0]) == "s"
+		})
 		f.Has("R1", retStats, 2)
 		f.Dom("R1", commit, retStats)
 		for _, v := range []string{"commitErr != nil", "err != nil"} {
